@@ -9,6 +9,16 @@ sys.path.insert(0, VERIF)
 from harness.core import CHECKS  # noqa
 
 TABLE = {
+    "C20": dict(
+        category="exploration", design_ref="3/C20",
+        technique="harness-owned thread schedules (sys.settrace line-level scheduler: every single-preemption interleaving of operation pairs sharing an object, sampled 2-3 preemption schedules), Hypothesis-generated sequential call histories in forked children, multi-thread stress; oracle = outcome in isolation (computed in pristine forked processes) + shared-state invariants",
+        text="Per quick run ~31 000 deterministic two-thread schedules over 22 core operations (all single-preemption points for the ~250 ordered pairs that share a lazily initialised key, key set or "
+             "built-in algorithm object, 6 points for the others, plus ~1000 sampled multi-preemption schedules), 1500 generated sequential histories of 2-12 operations from a pool of 33 (each in a "
+             "forked child so that recorded histories are self-contained), and ~70 stress rounds of 8-24 threads under a 1 us switch interval. Every call must give the outcome it gives in "
+             "isolation (accept/reject, exception class, recovered content, produced token valid under the reference), and every key of every key set must still have kid == thumbprint. The "
+             "thorough tier enumerates every single-preemption schedule of every ordered pair of all 33 operations.",
+        note="interleavings at Python-line granularity inside joserfc only; C-level races and free-threaded builds are out of reach; the stress part is a non-deterministic supplement",
+    ),
     "C18": dict(
         category="exploration", design_ref="3/C18",
         technique="generated call histories (interleaved encryptions over shared key objects, host random.seed() calls, decrypt->re-encrypt steps) with history invariants (exact sizes, pairwise distinctness, no fixed bits), CEK observed through the independent reference, cross-process comparison in fresh interpreters",
